@@ -38,7 +38,7 @@ def analysis(params, workdir: Path, models_in=None, model_order=None):
     folds = mkdata.read_dataset(p)._split(params["folds"], np.random.default_rng(params["seed"]))
     digest["folds"] = sha(json.dumps([list(map(int, f)) for f in folds]).encode())
     if models_in is None:
-        model = mokapot.PercolatorModel(train_fdr=0.25, max_iter=2, rng=params["seed"])
+        model = mokapot.PercolatorModel(train_fdr=0.25, max_iter=2, rng=params["seed"], override=True)
     else:
         model = [models_in[i] for i in model_order]
     _, models, scores, descs = mokapot.brew(ds, model, test_fdr=0.25, folds=params["folds"],
